@@ -40,10 +40,32 @@ Definition ai_is_empty (a : alloc_info) : bool :=
   (ai_grow_c a =? 0) && (ai_grow_s a =? 0) && (ai_shrink_c a =? 0) && (ai_shrink_s a =? 0) &&
   (ai_alloc_c a =? 0) && (ai_alloc_s a =? 0) && (ai_dealloc_c a =? 0) && (ai_dealloc_s a =? 0).
 
+(** The four [KnownCounterKind]s, in [KnownCounterKind::ALL] order, and a value
+    per kind. *)
+Inductive ckind := KBytes | KChars | KCycles | KItems.
+Definition all_kinds : list ckind := [KBytes; KChars; KCycles; KItems].
+
+Record quad (A : Type) := { q_bytes : A; q_chars : A; q_cycles : A; q_items : A }.
+Arguments q_bytes {A} _.
+Arguments q_chars {A} _.
+Arguments q_cycles {A} _.
+Arguments q_items {A} _.
+
+Definition qget {A} (k : ckind) (q : quad A) : A :=
+  match k with KBytes => q_bytes q | KChars => q_chars q | KCycles => q_cycles q | KItems => q_items q end.
+
+Definition qconst {A} (a : A) : quad A := {| q_bytes := a; q_chars := a; q_cycles := a; q_items := a |}.
+
+Definition qmap3 {A B C D} (f : A -> B -> C -> D) (a : quad A) (b : quad B) (c : quad C) : quad D :=
+  {| q_bytes := f (q_bytes a) (q_bytes b) (q_bytes c); q_chars := f (q_chars a) (q_chars b) (q_chars c);
+     q_cycles := f (q_cycles a) (q_cycles b) (q_cycles c); q_items := f (q_items a) (q_items b) (q_items c) |}.
+
+Definition qany (q : quad bool) : bool := q_bytes q || q_chars q || q_cycles q || q_items q.
+
 (** [RawSample] of one thread: the two timestamps (counter ticks), the
-    allocation tallies of the timed section and the total of the per-input
-    counter over the sample's inputs. *)
-Record raw := { r_start : N; r_end : N; r_alloc : alloc_info; r_ctotal : N }.
+    allocation tallies of the timed section and, per counter kind, the total
+    of the per-input counter over the sample's inputs ([counter_totals]). *)
+Record raw := { r_start : N; r_end : N; r_alloc : alloc_info; r_ctotal : quad N }.
 
 Definition round_obs := list raw.
 
@@ -60,17 +82,17 @@ Record cfg := {
   c_freq : N;               (* Timer::Tsc { frequency } *)
   c_prec : N;               (* timer.precision().picos *)
   c_oh : overheads;         (* timer.bench_overheads() *)
-  c_input_counts : bool     (* counters.uses_input_counts(kind) for the modelled kind *)
+  c_input_counts : quad bool  (* counters.uses_input_counts(kind), per kind *)
 }.
 
-(** [SampleCollection] + the modelled [CounterCollection] entry. *)
+(** [SampleCollection] + the input-based counts of the [CounterCollection], per kind. *)
 Record store := {
   st_samples : list N;                 (* time_samples[i].duration.picos *)
   st_allocs : list (N * alloc_info);   (* alloc_info_by_sample, in insertion order *)
-  st_counts : list N                   (* counters.counts(kind) *)
+  st_counts : quad (list N)            (* counters.counts(kind) of the input-based kinds *)
 }.
 
-Definition store_empty : store := {| st_samples := []; st_allocs := []; st_counts := [] |}.
+Definition store_empty : store := {| st_samples := []; st_allocs := []; st_counts := qconst [] |}.
 
 Record state := {
   s_mode : bmode;            (* current_mode *)
@@ -144,16 +166,16 @@ Definition map_insert (k : N) (v : alloc_info) (m : list (N * alloc_info)) : lis
 
 (** Body of [for raw_sample in raw_samples] without the counter on
     [rem_samples]: pushes the time sample, the allocation info (if any) and the
-    per-input count.  [sample_index as u32] truncates; [(total / size) as
-    MaxCountUInt] is a u64 cast. *)
+    per-input count of every kind that has an input-based counter.
+    [sample_index as u32] truncates; [(total / size) as MaxCountUInt] is a u64 cast. *)
 Definition record_one (c : cfg) (size : N) (s : store) (rd : raw * N) : store :=
   let (r, d) := rd in
   let idx := N.of_nat (length (st_samples s)) in
   {| st_samples := st_samples s ++ [sample_duration c size r d];
      st_allocs := if ai_is_empty (r_alloc r) then st_allocs s
                   else map_insert (idx mod 2 ^ 32) (r_alloc r) (st_allocs s);
-     st_counts := if c_input_counts c then st_counts s ++ [(r_ctotal r / size) mod 2 ^ 64]
-                  else st_counts s |}.
+     st_counts := qmap3 (fun (ic : bool) ct cs => if ic then cs ++ [(ct / size) mod 2 ^ 64] else cs)
+                        (c_input_counts c) (r_ctotal r) (st_counts s) |}.
 
 (** The whole [for] loop: also [rem_samples.saturating_sub(1)] per sample. *)
 Definition record_step (c : cfg) (size : N) (acc : store * option N) (rd : raw * N) : store * option N :=
@@ -202,7 +224,7 @@ Definition round_body (c : cfg) (init : N) (st : state) (size : N) (obs : round_
   do durs <- map_res (raw_duration c) obs;
   let slow := nmax_list durs in
   do st1 <- tune_branch c st slow;
-  if c_input_counts c && (size =? 0) then Panic DivByZero
+  if qany (c_input_counts c) && (size =? 0) then Panic DivByZero
   else
     let '(sto, rem) := fold_left (record_step c size) (combine obs durs) (s_store st1, s_rem st1) in
     do el <- (if c_skip c then Ok (sat_add 128 (s_elapsed st1) (N.max slow min_progress_picos))
@@ -378,7 +400,7 @@ Record seen := {
   o_final_size : N;          (* SampleCollection.sample_size *)
   o_samples : list N;        (* recorded durations *)
   o_alloc_keys : list N;     (* keys of alloc_info_by_sample, in insertion order *)
-  o_counts : list N;         (* per-input counts *)
+  o_counts : quad (list N);  (* per-input counts, per kind *)
   o_stat_samples : N;        (* Stats.sample_count *)
   o_stat_iters : N           (* Stats.iter_count *)
 }.
@@ -460,12 +482,17 @@ Definition c04_sb (c : cfg) (init : N) (hist : list round_obs) (o : seen) : bool
 (** C19.  Sizes 1, 2, 4, ... up to the first passing round, constant from
     there; only the rounds from the first passing one on (or the newest one,
     if none passed) left samples, as many as their threads; the final size is
-    the last round's; allocation info is held for exactly the kept samples that
+    the last round's; every input-based counter kind holds exactly the
+    per-iteration values of the kept samples; allocation info is held for exactly the kept samples that
     allocated; the rounds follow the rule with the first passing round
     counting as the first recorded one and the time ceiling covering the
     tuning rounds. *)
 Definition expected_samples (c : cfg) (size : N) (kept : list round_obs) : list N :=
   flat_map (fun o => map (fun r => sample_duration c size r (dur_ps (c_freq c) (r_end r) (r_start r))) o) kept.
+
+(** Per-iteration value of counter kind [k] for every kept sample. *)
+Definition expected_counts (k : ckind) (size : N) (kept : list round_obs) : list N :=
+  map (fun r => (qget k (r_ctotal r) / size) mod 2 ^ 64) (concat kept).
 
 (** Indices (from [i] on) of the samples that come with allocation info. *)
 Fixpoint alloc_keys_from (i : N) (l : list raw) : list N :=
@@ -482,9 +509,23 @@ Definition c19_sb (c : cfg) (init : N) (hist : list round_obs) (o : seen) : bool
     (N.of_nat (length (o_samples o)) =? total_len (kept_of c hist)) &&
     list_eqb (o_samples o) (expected_samples c (o_final_size o) (kept_of c hist)) &&
     (o_final_size o =? match k with O => 0 | S k' => size_of_round c hist k' end) &&
-    (if c_input_counts c then (length (o_counts o) =? length (o_samples o))%nat else true) &&
+    forallb (fun k => list_eqb (qget k (o_counts o))
+                        (if qget k (c_input_counts c) then expected_counts k (o_final_size o) (kept_of c hist) else []))
+            all_kinds &&
     list_eqb (o_alloc_keys o) (alloc_keys_from 0 (concat (kept_of c hist))) &&
     forallb (fun j => continue_after c init hist j) (seq 0 k) &&
     (if o_done o then negb (continue_after c init hist k) else continue_after c init hist k) &&
     (o_stat_samples o =? N.of_nat (length (o_samples o))) &&
     (o_stat_iters o =? N.of_nat (length (o_samples o)) * o_final_size o).
+
+(** C03 end to end (the real runner, one row of the table per thread count):
+    what a run with count [n] (default 100), explicit size [s] on [t] threads
+    must report and how often each thread must have called the function. *)
+Definition c03_e2e_sb (n : option N) (s t : N) (test : bool) (samples iters : N) (calls : list N) : bool :=
+  let nn := match n with Some x => x | None => 100 end in
+  (N.of_nat (length calls) =? t) &&
+  if (nn =? 0) || (s =? 0) then all_eq 0 calls && (samples =? 0) && (iters =? 0)
+  else if test then all_eq 1 calls
+  else
+    let r := ceil_div nn t in
+    (samples =? t * r) && (iters =? t * r * s) && all_eq (s * r) calls.
